@@ -86,6 +86,7 @@ def run(ctx):
                 "Model/Temp.v on boundary + random raw words and decimal / random float temperatures; real GeckoWaterHeater limits, unit symbol and "
                 "current_operation for all flag-presence combinations vs the model; every shipped temperature item is checked to be a 2-byte Word item; "
                 "non-trivial = distinct (unit, value) whose float result is not an integer")
+    ctx.may_use_stdlib_axioms = ("c14_presentation_preserves_order",)
     ctx.prove(timeout=2400)
     rng = ctx.rng
     exprs, meta = [], []
